@@ -119,6 +119,10 @@ class Monitor:
                 ctx.count(f"{self.kind}:pair-checks")
                 w = dict(self.witness, inserted=list(self.edges), src=u, dst=v)
                 if v not in dist:
+                    if v in nu.routes:
+                        # path() would follow it (possibly without end): the stale entry itself is the observation
+                        self.fail("C20/route-to-unconnected-node", w, f"{u} holds a route towards {v} although they are not connected")
+                        continue
                     try:
                         p = nu.path(v)
                         self.fail("C20/route-to-unconnected-node", w, f"path({u}->{v}) = {[x.name for x in p]} but they are not connected")
@@ -126,6 +130,21 @@ class Monitor:
                         ctx.evaluations += 1
                     except Exception as exc:
                         self.fail("C20/unconnected-wrong-exception", dict(w, exc=repr(exc)), repr(exc))
+                    continue
+                # path() follows routes[goal].direction in a bare `while True`: walk the same tables with a bound first, so
+                # that a routing loop is an observation (logical steps), not a hang of the check
+                hops, obj, looped = 0, nu, False
+                while obj.name != v:
+                    r = obj.routes.get(v)
+                    if r is None:
+                        break
+                    obj = r.direction
+                    hops += 1
+                    if hops > len(names) + 1:
+                        looped = True
+                        break
+                if looped:
+                    self.fail("C20/route-loops-forever" + suffix, w, f"following the routing tables from {u} towards {v} never arrives (path() would not return)")
                     continue
                 try:
                     p = nu.path(v)
